@@ -329,9 +329,9 @@ func TestC20_Ulule(t *testing.T) {
 // a fast producer. Only the order / duplicate / membership clauses are asserted
 // here (delivery stamps taken under load cannot bound the quota soundly).
 func TestC20_NativeStress(t *testing.T) {
-	n := 6000
+	n := 400000
 	if rt.Thorough() {
-		n = 120000
+		n = 6000000
 	}
 	n /= rt.ShardCount()
 	for round := 0; round < 3; round++ {
